@@ -96,7 +96,7 @@ def gen_spatial(rng):
     if rng.random() < 0.3:
         nmax = rng.randint(1, max(1, maxcn + 1))
     x = [[[dec(rng, -5, 5) for _ in range(C)] for _ in range(N)] for _ in range(T)]
-    return {"kind": "spatial", "T": T, "N": N, "shape": shape, "frames": frames, "Nmax": nmax, "x": x}
+    return {"kind": "spatial", "T": T, "N": N, "shape": shape, "frames": frames, "Nmax": nmax, "x": x, "save": rng.random() < 0.2}
 
 
 GRIDS2 = [(2, 3), (5, 2), (3, 3), (4, 4), (2, 2), (3, 5), (6, 3), (1, 3), (3, 1), (4, 2), (2, 5)]
@@ -141,7 +141,7 @@ def gen_blur(rng, tie=False):
         cut = dec(rng, 1, 8, 2)
     cond = [[[dec(rng, -3, 3, 2) for _ in range(C)] for _ in range(N)] for _ in range(T)]
     return {"kind": "blur", "d": d, "ng": ng, "T": T, "N": N, "shape": shape, "frames": frames, "ppp": ppp,
-            "ppp3": d == 2 and rng.random() < 0.5, "sigma": sigma, "cut": cut, "cond": cond, "tie": tie}
+            "ppp3": d == 2 and rng.random() < 0.5, "sigma": sigma, "cut": cut, "cond": cond, "tie": tie, "save": rng.random() < 0.2}
 
 
 def gen_time(rng, exact=None):
@@ -241,9 +241,12 @@ def real_call(c):
                         nb = f["rows"][i]
                         fh.write("{}     {}     {}\n".format(i + 1, len(nb), " ".join(str(j + 1) for j in nb)))
             x0 = x.copy()
-            out = cg.spatial_average(x, path, Nmax=c["Nmax"])
+            of = os.path.join(tmp, "out.npy") if c.get("save") else ""
+            out = cg.spatial_average(x, path, Nmax=c["Nmax"], outputfile=of)
             if not np.array_equal(x, x0):
                 raise AssertionError("input_property was modified in place")
+            if of and not np.array_equal(np.load(of), out):
+                raise AssertionError("saved file differs from the returned array")
             return {"out": np.asarray(out)}
         finally:
             shutil.rmtree(tmp, ignore_errors=True)
@@ -256,8 +259,16 @@ def real_call(c):
                                [[float(v) for v in row] for row in f["H"]]))
         cond = np.array([[[float(v) for v in p] for p in f] for f in c["cond"]], dtype=float).reshape([c["T"], c["N"]] + c["shape"])
         ppp = [int(v) for v in c["ppp"]] + ([1] if c.get("ppp3") else [])
-        gp, gv = cg.gaussian_blurring(Snapshots(c["T"], snaps), cond, np.array(c["ng"]), sigma=float(c["sigma"]),
-                                      ppp=np.array(ppp), gaussian_cut=float(c["cut"]))
+        tmp = tempfile.mkdtemp(prefix="c16-") if c.get("save") else None
+        try:
+            of = os.path.join(tmp, "blur") if tmp else ""
+            gp, gv = cg.gaussian_blurring(Snapshots(c["T"], snaps), cond, np.array(c["ng"]), sigma=float(c["sigma"]),
+                                          ppp=np.array(ppp), gaussian_cut=float(c["cut"]), outputfile=of)
+            if of and not (np.array_equal(np.load(of + "_positions.npy"), gp) and np.array_equal(np.load(of + "_properties.npy"), gv)):
+                raise AssertionError("saved files differ from the returned arrays")
+        finally:
+            if tmp:
+                shutil.rmtree(tmp, ignore_errors=True)
         return {"pos": np.asarray(gp), "val": np.asarray(gv)}
     T = c["T"]
     snaps = [_snap(c["t0"] + n * c["dts"], [[0.0, 0.0]] * c["N"], [1.0, 1.0], [[0, 1.0], [0, 1.0]], [[1.0, 0], [0, 1.0]]) for n in range(T)]
